@@ -232,6 +232,8 @@ def _agree_read_model(case, res, irregular):
             return None
         return 'record reader raised %s, its model says %s' % (r['err'], rd[:40])
     if not rd.startswith('ok '):
+        if any(h == 2400 for d, h in case['flags']):
+            return None     # hour-24 labels: the record readers normalise them, their Lean model looks the stored label up
         return 'record-reader model: %s, the library read the file' % rd[:40]
     _, rk = lib.parse_kv('x ' + rd[3:])
     if (float(rk['nt']), float(rk['nz'])) != (float(r['nt']), float(r['nz'])):
@@ -260,7 +262,7 @@ def oracle(case, res):
                 return '%s reader: nt,nz = %s,%s, encoded %d,%d' % (nm, v['nt'], v['nz'], len(case['flags']), case['nz'])
             if v['vars'] != want:
                 return '%s reader: U/V data differ from what was encoded' % nm
-        if b.get('timerange') != [[d, float(h)] for d, h in case['flags']]:
+        if b.get('timerange') != [[d + 1, 0.0] if h == 2400 else [d, float(h)] for d, h in case['flags']]:
             return 'time flags of the record reader %s, stored %s' % (b.get('timerange'), case['flags'])
         conv = [[d + (2000000 if d < 70000 else 1900000), h * 100] for d, h in case['flags']]
         if any(h for d, h in case['flags']) and a.get('tflag') != conv:
@@ -280,8 +282,13 @@ def oracle(case, res):
             return 'readers disagree on shapes %s vs %s' % (a['shapes'], b['shapes'])
     if a['vars'] != b['vars']:
         return 'readers disagree on data'
-    if 'timerange' in b and b['timerange'] != [[d, float(h)] for d, h in case['flags']]:
+    # the record readers present midnight as hour 0 of the next day, also when the file labels it hour 24 of the day that ends
+    norm = [[d + 1, 0.0] if h == 2400 else [d, float(h)] for d, h in case['flags']]
+    if 'timerange' in b and b['timerange'] != norm:
         return 'time flags of the record reader %s, stored in the file (and read by Memmap) %s' % (b['timerange'], case['flags'])
+    conv = lib.show_list(['%d:%d' % (d + (2000000 if d < 70000 else 1900000), h * 100) for d, h in case['flags']])
+    if 'tflag' in a and any(h for d, h in case['flags']) and not case.get('irregular') and a['tflag'] != conv:
+        return 'Memmap TFLAG %s, the file holds %s' % (a['tflag'], conv)
     want = [w for slabs in case['data'] for s in slabs for w in s]
     kind = S.FORMATS[case['fmt']][0]
     if kind == 'one3d':
